@@ -710,6 +710,111 @@ def alias(root, params):
     return map_tree(root, sub)
 
 
+def _variant_pat(p_, name):
+    """`Ok(x)` / `Err(x)` / `Some(x)` with a plain binding (or `_`): the sub-pattern; `None`: True; else None."""
+    if not isinstance(p_, dict):
+        return None
+    path = (p_.get("path") or {}).get("path", "") if isinstance(p_.get("path"), dict) else str(p_.get("path", ""))
+    if not path.endswith("::" + name):
+        return None
+    if p_.get("k") == "ppath":
+        return True
+    if p_.get("k") == "pts" and len(p_.get("pats", [])) == 1 and p_["pats"][0].get("k") in ("pbind", "pwild") and "sub" not in p_["pats"][0] \
+            and "Ref" not in str(p_["pats"][0].get("mode", "")):
+        return p_["pats"][0]
+    return None
+
+
+def _returns_same_failure(body, binder):
+    """Is `body` exactly `return Err(e)` (e the given binder) / `return None` (binder True)?"""
+    body = hir.simp(body)
+    while isinstance(body, dict) and body.get("k") == "block" and "label" not in body and "unsafe" not in body:
+        st = body.get("stmts", [])
+        if len(st) == 1 and "expr" not in body:
+            body = hir.simp(st[0])
+        elif not st and "expr" in body:
+            body = hir.simp(body["expr"])
+        else:
+            return False
+    if not (isinstance(body, dict) and body.get("k") == "ret" and "e" in body):
+        return False
+    r = hir.simp(body["e"])
+    if binder is True:
+        return r.get("k") == "def" and str(r.get("path", "")).endswith("Option::None")
+    if binder.get("k") != "pbind":
+        return False
+    return r.get("k") == "call" and str(r.get("ctor", "")).endswith("Result::Err") and len(r.get("args", [])) == 1 \
+        and hir.simp(r["args"][0]).get("k") == "local" and hir.simp(r["args"][0]).get("id") == binder.get("id")
+
+
+def _mk_try(inner, ty, ids, ln):
+    """The `?` desugaring around `inner` (shape as rustc writes it; the rules recognise it through hir.try_inner)."""
+    rid, vid = ids.next() * 1000 + 1, ids.next() * 1000 + 2
+    mac = ["desugaring of operator `?`"]
+    return {"k": "match", "src": "TryDesugar", "norm": "explicit-propagation",
+            "scrut": {"k": "call", "callee": "core::ops::try_trait::Try::branch", "args": [inner], "ln": ln, "mac": mac, "ty": "core::ops::control_flow::ControlFlow<_>"},
+            "arms": [{"pat": {"k": "pstruct", "path": {"k": "def", "dk": "Variant", "path": "core::ops::control_flow::ControlFlow::Break"},
+                              "fields": [{"name": "0", "p": {"k": "pbind", "name": "residual", "id": rid, "mode": "BindingMode(No, Not)", "ty": "_"}}], "rest": False},
+                      "body": {"k": "ret", "e": {"k": "call", "callee": "core::ops::try_trait::FromResidual::from_residual",
+                                                 "args": [{"k": "local", "name": "residual", "id": rid, "ln": ln, "mac": mac, "ty": "_"}], "ln": ln, "mac": mac, "ty": "_"},
+                               "ln": ln, "mac": mac, "ty": "!"}, "ln": ln, "mac": mac},
+                     {"pat": {"k": "pstruct", "path": {"k": "def", "dk": "Variant", "path": "core::ops::control_flow::ControlFlow::Continue"},
+                              "fields": [{"name": "0", "p": {"k": "pbind", "name": "val", "id": vid, "mode": "BindingMode(No, Not)", "ty": ty}}], "rest": False},
+                      "body": {"k": "local", "name": "val", "id": vid, "ln": ln, "ty": ty}, "ln": ln, "mac": mac}],
+            "ln": ln, "ty": ty}
+
+
+def _explicit_try(ids):
+    """Propagation written out is `?`:  `match x { Ok(v) => v, Err(e) => return Err(e) }`, `match x { Some(v) => v, None => return None }`
+    -> `x?`;  `if let Err(e) = x { return Err(e); }` -> `x?;`.  (`return Err(e)` type-checks only when e already has the function's
+    error type, and `?` converts through the identity `From` then.)"""
+    def fn(n):
+        k = n.get("k")
+        if k == "match" and n.get("src") == "Normal" and len(n.get("arms", [])) == 2 and not any(a.get("guard") for a in n["arms"]):
+            for good, bad, fail in (("Ok", "Err", None), ("Some", "None", True)):
+                for a, b_ in (n["arms"], n["arms"][::-1]):
+                    v, e = _variant_pat(a["pat"], good), _variant_pat(b_["pat"], bad)
+                    if v is None or v is True or e is None or v.get("k") != "pbind":
+                        continue
+                    body = hir.simp(a["body"])
+                    if not (body.get("k") == "local" and body.get("id") == v.get("id")):
+                        continue
+                    if (fail is True and e is True and _returns_same_failure(b_["body"], True)) or \
+                            (fail is None and e is not True and _returns_same_failure(b_["body"], e)):
+                        return _mk_try(n["scrut"], n.get("ty"), ids, n.get("ln"))
+        if k == "match" and n.get("src") == "Normal" and len(n.get("arms", [])) >= 3:
+            # `match x { Ok(p) if g => a, Ok(q) => b, Err(e) => return Err(e) }` -> `match x? { p if g => a, q => b }`
+            for good, bad in (("Ok", "Err"), ("Some", "None")):
+                fails = [a for a in n["arms"] if not a.get("guard") and _variant_pat(a["pat"], bad) is not None and
+                         _returns_same_failure(a["body"], _variant_pat(a["pat"], bad))]
+                rest = [a for a in n["arms"] if not any(a is f for f in fails)]
+                if len(fails) != 1 or not rest:
+                    continue
+                subs = []
+                for a in rest:
+                    p_ = a["pat"]
+                    path = (p_.get("path") or {}).get("path", "") if isinstance(p_.get("path"), dict) else ""
+                    if p_.get("k") == "pts" and path.endswith("::" + good) and len(p_.get("pats", [])) == 1:
+                        subs.append(dict(a, pat=p_["pats"][0]))
+                    else:
+                        subs = None
+                        break
+                if subs:
+                    return dict(n, scrut=_mk_try(n["scrut"], "_", ids, n.get("ln")), arms=subs, norm="explicit-propagation")
+        if k == "if" and "e" not in n:
+            c = hir.simp(n["c"])
+            if isinstance(c, dict) and c.get("k") == "letexpr":
+                e = _variant_pat(c["pat"], "Err")
+                if e is not None and e is not True and _returns_same_failure(n["t"], e):
+                    t = _mk_try(c["init"], "_", ids, n.get("ln"))
+                    return {"k": "block", "stmts": [t], "ln": n.get("ln"), "ty": "()", "norm": "explicit-propagation"}
+                if _variant_pat(c["pat"], "None") is True and _returns_same_failure(n["t"], True):
+                    t = _mk_try(c["init"], "_", ids, n.get("ln"))
+                    return {"k": "block", "stmts": [t], "ln": n.get("ln"), "ty": "()", "norm": "explicit-propagation"}
+        return n
+    return fn
+
+
 def split_tuple_lets(root):
     """`let (a, b) = (x, y);` with pure x, y -> `let a = x; let b = y;` (locals are id-resolved, so a swap stays a swap)."""
     def fn(n):
@@ -1065,8 +1170,9 @@ def single_use_temps(root):
                 if "Ref" in str(s["pat"].get("mode", "")) or idx + 1 >= len(items):
                     continue
                 init = hir.simp(s["init"])
-                if not (isinstance(init, dict) and init.get("k") == "call" and not init.get("ctor")):
-                    continue          # only call results: other temporaries are handled by the integer / alias passes
+                reborrow = isinstance(init, dict) and init.get("k") == "ref" and place_like(hir.peel(init))
+                if not (isinstance(init, dict) and init.get("k") == "call" and not init.get("ctor")) and not reborrow:
+                    continue          # only call results and reborrows: other temporaries are handled by the integer / alias passes
                 i = s["pat"]["id"]
                 uses = sum(len(_uses_in(t, i)) for t in items[idx + 1:])
                 if uses != 1:
@@ -1142,6 +1248,7 @@ def normalise_crate(name, crate):
         h = map_tree(h, _int_from)
         h = map_tree(h, _then_some)
         h = map_tree(h, _try_for_each(ids))
+        h = map_tree(h, _explicit_try(ids))
         b["hir_pre"] = h
     for b in bodies:
         h = b.pop("hir_pre")
